@@ -1,4 +1,5 @@
 """TTL rules: C04 (safety), C05 (retention / deadline provenance), C16 (expired-first), C17 (clean)."""
+import re
 import lift
 import ops
 from lift import Ent, is_ld, ld0
@@ -472,6 +473,10 @@ def check_ord_witness_A(an, res, prop, cm, roles):
     f = cm.field_by_name[aux]
     t = f.type
     ok = typeclass(t) == 'multimap' and 'time_point' in t.split(',')[0] + t
+    if not ok and typeclass(t) == 'multimap' and re.match(r'\s*std::multimap<\s*std::chrono::duration<', t):
+        # keyed by the deadline kept as the duration since the clock's epoch: the same order (what is filed under the key is checked
+        # by R-REFILE-ON-UPDATE / R-TTL-MIRRORS-INDEX against the element's own deadline field)
+        ok = True
     # comparator: default std::less (no greater<>)
     ok = ok and 'greater' not in t
     res.ob('ORD-WITNESS', ok=ok)
